@@ -477,11 +477,13 @@ pub struct Printer<'t> {
 	pub minimal: bool,
 	/// allow a bare open-ended construct (if/local/function/error/assert) as right-most operand
 	pub bare_tail: bool,
+	/// always parenthesise a prefix-operator expression that is the left operand of `* / %`
+	pub paren_unary_in_mul: bool,
 }
 
 impl<'t> Printer<'t> {
 	pub fn new(trivia: &'t mut dyn Trivia) -> Self {
-		Self { out: String::new(), marks: vec![], prev: String::new(), trivia, trailing_commas: false, minimal: true, bare_tail: false }
+		Self { out: String::new(), marks: vec![], prev: String::new(), trivia, trailing_commas: false, minimal: true, bare_tail: false, paren_unary_in_mul: false }
 	}
 	/// emit a token, separated from the previous one unless brackets/punctuation make that unnecessary
 	fn tok(&mut self, t: &str) {
@@ -832,9 +834,24 @@ impl<'t> Printer<'t> {
 			}
 			Bin(op, a, b) => {
 				let l = op.level();
-				self.expr(a, l, false);
+				// exclusion by construction of the recorded unary-precedence finding: `(-a) * b` keeps its parentheses
+				let unary_left = matches!(**a, Un(..)) || matches!(**a, Num(v, None) if v < 0.0);
+				if self.paren_unary_in_mul && l == 10 && unary_left {
+					self.tok("(");
+					self.expr(a, 0, true);
+					self.tok(")");
+				} else {
+					self.expr(a, l, false);
+				}
 				self.tok(op.sym());
-				self.expr(b, l + 1, tail);
+				let unary_right = matches!(**b, Un(..)) || matches!(**b, Num(v, None) if v < 0.0);
+				if self.paren_unary_in_mul && l == 10 && unary_right {
+					self.tok("(");
+					self.expr(b, 0, true);
+					self.tok(")");
+				} else {
+					self.expr(b, l + 1, tail);
+				}
 			}
 			Error(x) => {
 				self.tok("error");
@@ -885,6 +902,16 @@ fn dangling_if(e: &Ex) -> bool {
 		Bin(_, _, b) => dangling_if(b),
 		_ => false,
 	}
+}
+
+/// printing for evaluation: a prefix-operator expression under `* / %` keeps explicit parentheses, so that the
+/// recorded unary-precedence finding of the default parser (C06) cannot change the meaning of the program
+pub fn print_eval(e: &Ex) -> String {
+	let mut t = PlainTrivia;
+	let mut p = Printer::new(&mut t);
+	p.paren_unary_in_mul = true;
+	p.expr(e, 0, true);
+	p.out
 }
 
 pub fn print(e: &Ex) -> String {
